@@ -1,6 +1,7 @@
 """Reference gateway drivers: one abstract HTTP request, two total translations (PEP 3333 environ, ASGI 3 scope+messages),
 drivers that record everything the application does to the gateway, and prefix-closed protocol monitors."""
 import os
+import sys
 import re
 
 from .vloop import Session, Stuck
@@ -41,6 +42,10 @@ class ScriptedInput:
 
     def read(self, size=-1):
         self.reads += 1
+        if size is not None and not isinstance(size, int):
+            raise TypeError(f"integer argument expected, got {type(size).__name__}")  # as io.BytesIO / socket files do
+        if size is not None and size > sys.maxsize:
+            raise OverflowError("cannot fit 'int' into an index-sized integer")  # as every real file object does
         if self.eof_seen:
             self.reads_after_eof += 1
             return b""
